@@ -419,4 +419,49 @@ def gl7(prog):
 
 def run(prog):
     a, getfn = gl1(prog)
-    return a + gl2(prog, getfn) + gl3(prog) + gl4(prog) + gl5(prog) + gl6(prog) + gl7(prog)
+    return a + gl2(prog, getfn) + gl3(prog) + gl4(prog) + gl5(prog) + gl6(prog) + gl7(prog) + gl8(prog)
+
+
+def _resolve(t, d):
+    """specialise a term to the Ite variant with discriminant d (γ on discr(arg2) picks its arm)"""
+    t = strip(t)
+    if not isinstance(t, tuple) or not t:
+        return t
+    if t[0] == "gamma" and show(strip(t[1])) == "discr(arg2)":
+        for lab, v in t[2]:
+            if lab == str(d):
+                return _resolve(v, d)
+        for lab, v in t[2]:
+            if isinstance(lab, tuple) and lab[0] == "not" and str(d) not in lab[1]:
+                return _resolve(v, d)
+        return t
+    if t[0] == "agg":
+        return t[:4] + (tuple(_resolve(x, d) for x in t[4]),) + t[5:]
+    return t
+
+
+def gl8(prog):
+    """GL8  per ITE table (AllIteTable, LruIteTable) and per Ite variant: the key a result is stored under by
+    `insert` is the very key `get` looks up.  (Which layout the key has is free; the two must be the same term.)"""
+    out = []
+    tabs = {}
+    for f in prog.lib_fns:
+        if f.name in ("insert", "get") and (f.impl_trait or "").endswith("cache::IteTable"):
+            for cs in f.terms.calls:
+                if cs.callee.name == f.name and cs.args and show(strip(cs.args[0])).endswith(".table") and len(cs.args) >= 2:
+                    tabs.setdefault(f.impl_self, {})[f.name] = (f, cs)
+    if len(tabs) < 2:
+        raise CheckerError("GL8: expected two IteTable implementations with insert/get on their table, found %d" % len(tabs))
+    for adt, d in sorted(tabs.items()):
+        if set(d) != {"insert", "get"}:
+            raise CheckerError("GL8: %s lacks insert or get on its table" % adt)
+        fi, ci = d["insert"]
+        fg, cg = d["get"]
+        errs = []
+        for disc, vname in ((0, "IteChoice"), (1, "IteComplChoice")):
+            ki, kg = _resolve(ci.args[1], disc), _resolve(cg.args[1], disc)
+            if ki != kg:
+                errs.append("for %s a result is stored under %s but looked up under %s" % (vname, show(ki)[:90], show(kg)[:90]))
+        out.append(inst("GL", "%s:GL8:store-key=lookup-key" % adt, VIOLATION if errs else OK, fi, ci.line,
+                        "; ".join(errs) if errs else "insert and get use the same key term for both Ite variants"))
+    return out
